@@ -45,7 +45,8 @@ def gen_scenario(seed, length=30, sessions=("A", "B"), mboxes=("inbox", "b"),
     w.update({"create": 0, "delete": 0, "rename": 0, "subscribe": 0, "uidprobe": 0})
     if weights:
         w.update(weights)
-    extra = ["c", "b/x", "d e"]
+    # (two SPECIAL-USE names among them: start-up treats those mailboxes specially)
+    extra = ["c", "b/x", "d e", "Junk", "Archive/old", "Archive"]
     names = list(w)
     ws = [w[n] for n in names]
     # commands come in bursts by one session while the others stay quiet (that is
